@@ -1895,7 +1895,7 @@ def bool_literals(test):
 # loops over constant tables: ``for a, b in TABLE: body`` with TABLE a class / module level tuple of tuples
 # ---------------------------------------------------------------------------
 
-def unroll_const_loops(prog, cls, fn, module=None, max_rows=60):
+def unroll_const_loops(prog, cls, fn, module=None, max_rows=60, literal_iter=False):
     """Copy of ``fn`` in which every ``for <names> in <class or module level constant sequence literal>`` is replaced by one copy
     of its body per row, the loop variables substituted by the row's expressions and the locals assigned inside the body
     renamed per row (so that each copy is single-assignment). A walrus that is the first operand of an ``if`` test becomes an
@@ -1912,7 +1912,9 @@ def unroll_const_loops(prog, cls, fn, module=None, max_rows=60):
             _, e = cls.find_assign(it.attr)
         elif isinstance(it, ast.Name) and module is not None:
             e = module.assigns.get(it.id)
-        if isinstance(e, (ast.Tuple, ast.List)) and e.elts and len(e.elts) <= max_rows:
+        if e is None and isinstance(it, (ast.Tuple, ast.List)) and literal_iter:
+            e = it
+        if isinstance(e, (ast.Tuple, ast.List)) and len(e.elts) <= max_rows and (e.elts or literal_iter):
             return e.elts
         return None
 
@@ -2007,3 +2009,236 @@ def unroll_const_loops(prog, cls, fn, module=None, max_rows=60):
     if not hasattr(new, '_cls'):
         new._cls = cls
     return _set_parents(new)
+
+
+# ---------------------------------------------------------------------------
+# partial evaluation under an assumption ("the sliver is a NodeSliver", "the service type is L2PTP")
+# ---------------------------------------------------------------------------
+
+def _constlike(e):
+    """an expression that denotes one fixed object whatever the input: literal, ENUM.MEMBER / Class name, tuple of those"""
+    if isinstance(e, ast.Constant):
+        return True
+    if isinstance(e, ast.Name):
+        return e.id[:1].isupper()
+    if isinstance(e, ast.Attribute):
+        b = e
+        while isinstance(b, ast.Attribute):
+            b = b.value
+        return isinstance(b, ast.Name) and b.id[:1].isupper()
+    if isinstance(e, (ast.Tuple, ast.List)):
+        return all(_constlike(x) for x in e.elts)
+    return False
+
+
+def specialize(prog, cls, fn, assume, module=None, rounds=6):
+    """Copy of ``fn`` partially evaluated under ``assume`` = {canonical text of an expression: replacement expression}: the
+    expressions are substituted, lookups in class / module level dictionary literals with a now-constant key are replaced by
+    the entry, comparisons between fixed objects are decided, conditions simplified, dead branches removed, tuple assignments
+    from literal tuples split, single-assignment locals bound to fixed objects propagated, loops over literal tuples unrolled
+    and ``getattr`` with a constant name folded. What is left is the code that runs for that case."""
+    module = module or (cls.module if cls is not None else None)
+    new = clone(fn)
+
+    def table(e):
+        node = None
+        if isinstance(e, ast.Attribute) and isinstance(e.value, ast.Name) and cls is not None and \
+                (e.value.id in ('self', 'cls') or e.value.id == cls.simple or any(c.simple == e.value.id for c in cls.mro())):
+            _, node = cls.find_assign(e.attr)
+        elif isinstance(e, ast.Name) and module is not None:
+            node = module.assigns.get(e.id)
+        return node if isinstance(node, ast.Dict) and all(k is not None for k in node.keys) else None
+
+    def truth(e):
+        if isinstance(e, ast.Constant):
+            return bool(e.value)
+        if isinstance(e, (ast.Tuple, ast.List, ast.Dict)) and _constlike(e) if not isinstance(e, ast.Dict) else False:
+            return bool(e.elts)
+        return None
+
+    class Fold(ast.NodeTransformer):
+        changed = False
+
+        def generic_visit(self, node):
+            node = super().generic_visit(node)
+            if isinstance(node, ast.expr):
+                t = ' '.join(ast.unparse(node).split())
+                if t in assume:
+                    Fold.changed = True
+                    return ast.copy_location(clone(assume[t]), node)
+            return node
+
+        def visit_Call(self, node):
+            node = self.generic_visit(node)
+            if not isinstance(node, ast.Call):
+                return node
+            f = node.func
+            if isinstance(f, ast.Attribute) and f.attr == 'get' and 1 <= len(node.args) <= 2 and not node.keywords:
+                d = table(f.value)
+                if d is not None and _constlike(node.args[0]):
+                    kt = ctext(node.args[0])
+                    for k, v in zip(d.keys, d.values):
+                        if ctext(k) == kt:
+                            Fold.changed = True
+                            return ast.copy_location(clone(v), node)
+                    Fold.changed = True
+                    return ast.copy_location(clone(node.args[1]) if len(node.args) == 2 else ast.Constant(value=None), node)
+            if isinstance(f, ast.Name) and f.id == 'getattr' and len(node.args) in (2, 3) and not node.keywords and \
+                    isinstance(node.args[1], ast.Constant) and isinstance(node.args[1].value, str) and node.args[1].value.isidentifier():
+                Fold.changed = True
+                return ast.copy_location(ast.Attribute(value=node.args[0], attr=node.args[1].value, ctx=ast.Load()), node)
+            return node
+
+        def visit_Subscript(self, node):
+            node = self.generic_visit(node)
+            if isinstance(node, ast.Subscript) and isinstance(node.ctx, ast.Load):
+                d = table(node.value)
+                if d is not None and _constlike(node.slice):
+                    kt = ctext(node.slice)
+                    for k, v in zip(d.keys, d.values):
+                        if ctext(k) == kt:
+                            Fold.changed = True
+                            return ast.copy_location(clone(v), node)
+                if isinstance(node.value, (ast.Tuple, ast.List)) and isinstance(node.slice, ast.Constant) and isinstance(node.slice.value, int) and \
+                        -len(node.value.elts) <= node.slice.value < len(node.value.elts):
+                    Fold.changed = True
+                    return ast.copy_location(clone(node.value.elts[node.slice.value]), node)
+            return node
+
+        def visit_Compare(self, node):
+            node = self.generic_visit(node)
+            if not (isinstance(node, ast.Compare) and len(node.ops) == 1):
+                return node
+            l, r, op = node.left, node.comparators[0], node.ops[0]
+            val = None
+            if isinstance(op, (ast.Eq, ast.Is, ast.NotEq, ast.IsNot)) and _constlike(l) and _constlike(r):
+                same = ctext(l) == ctext(r)
+                val = same if isinstance(op, (ast.Eq, ast.Is)) else not same
+            elif isinstance(op, (ast.In, ast.NotIn)) and _constlike(l) and isinstance(r, (ast.Tuple, ast.List, ast.Set)) and all(_constlike(x) for x in r.elts):
+                isin = ctext(l) in {ctext(x) for x in r.elts}
+                val = isin if isinstance(op, ast.In) else not isin
+            if val is None:
+                return node
+            Fold.changed = True
+            return ast.copy_location(ast.Constant(value=val), node)
+
+        def visit_UnaryOp(self, node):
+            node = self.generic_visit(node)
+            if isinstance(node, ast.UnaryOp) and isinstance(node.op, ast.Not):
+                t = truth(node.operand)
+                if t is not None:
+                    Fold.changed = True
+                    return ast.copy_location(ast.Constant(value=not t), node)
+            return node
+
+        def visit_BoolOp(self, node):
+            node = self.generic_visit(node)
+            if not isinstance(node, ast.BoolOp):
+                return node
+            is_and = isinstance(node.op, ast.And)
+            vals = []
+            for v in node.values:
+                t = truth(v)
+                if t is None:
+                    vals.append(v)
+                elif t != is_and:
+                    # False in an and / True in an or decides (in test position; value position is not touched by callers)
+                    if not vals:
+                        Fold.changed = True
+                        return ast.copy_location(ast.Constant(value=t), node)
+                    vals.append(v)
+                    break
+                else:
+                    Fold.changed = True
+            if not vals:
+                return ast.copy_location(ast.Constant(value=is_and), node)
+            if len(vals) == 1:
+                return vals[0]
+            node.values = vals
+            return node
+
+        def visit_IfExp(self, node):
+            node = self.generic_visit(node)
+            if isinstance(node, ast.IfExp):
+                t = truth(node.test)
+                if t is not None:
+                    Fold.changed = True
+                    return node.body if t else node.orelse
+            return node
+
+    def prune(stmts):
+        out = []
+        for st in stmts:
+            if isinstance(st, (ast.FunctionDef, ast.AsyncFunctionDef, ast.ClassDef)):
+                out.append(st)
+                continue
+            for field in ('body', 'orelse', 'finalbody'):
+                v = getattr(st, field, None)
+                if isinstance(v, list) and v and isinstance(v[0], ast.stmt):
+                    setattr(st, field, prune(v))
+            for h in getattr(st, 'handlers', []) or []:
+                h.body = prune(h.body)
+            if isinstance(st, ast.If):
+                t = truth(st.test)
+                if t is not None:
+                    Fold.changed = True
+                    out.extend(st.body if t else st.orelse)
+                    continue
+            if isinstance(st, ast.Assign) and len(st.targets) == 1 and isinstance(st.targets[0], (ast.Tuple, ast.List)) and \
+                    isinstance(st.value, (ast.Tuple, ast.List)) and len(st.value.elts) == len(st.targets[0].elts) and \
+                    all(isinstance(t_, ast.Name) for t_ in st.targets[0].elts):
+                Fold.changed = True
+                for t_, v_ in zip(st.targets[0].elts, st.value.elts):
+                    out.append(ast.copy_location(ast.Assign(targets=[t_], value=v_, lineno=st.lineno), st))
+                continue
+            if isinstance(st, (ast.For, ast.While)) and not st.body:
+                continue
+            if isinstance(st, ast.If) and not st.body:
+                st.body = [ast.copy_location(ast.Pass(), st)]
+            out.append(st)
+            if isinstance(st, (ast.Return, ast.Raise, ast.Continue, ast.Break)):
+                break
+        return out
+
+    def propagate(f):
+        stores = {}
+        for n in walk_no_nested(f):
+            if isinstance(n, ast.Name) and isinstance(n.ctx, ast.Store):
+                stores[n.id] = stores.get(n.id, 0) + 1
+            elif isinstance(n, (ast.For, ast.comprehension)):
+                pass
+        params = set(func_params(f))
+        env = {}
+        for n in walk_no_nested(f):
+            if isinstance(n, ast.Assign) and len(n.targets) == 1 and isinstance(n.targets[0], ast.Name) and stores.get(n.targets[0].id) == 1 and \
+                    n.targets[0].id not in params and (_constlike(n.value) or (isinstance(n.value, ast.Constant))):
+                env[n.targets[0].id] = n.value
+        if not env:
+            return False
+
+        class P(ast.NodeTransformer):
+            hit = False
+
+            def visit_Name(self, node):
+                if isinstance(node.ctx, ast.Load) and node.id in env:
+                    P.hit = True
+                    return ast.copy_location(clone(env[node.id]), node)
+                return node
+        P().visit(f)
+        return P.hit
+
+    for _ in range(rounds):
+        Fold.changed = False
+        new = Fold().visit(new)
+        new.body = prune(new.body) or [ast.Pass()]
+        hit = propagate(new)
+        ast.fix_missing_locations(new)
+        before = ast.dump(new)
+        new = unroll_const_loops(prog, cls, new, module=module, literal_iter=True)
+        if not Fold.changed and not hit and ast.dump(new) == before:
+            break
+    ast.fix_missing_locations(new)
+    for node in ast.walk(new):
+        for child in ast.iter_child_nodes(node):
+            child._parent = node
+    return new
